@@ -744,17 +744,20 @@ package ggql
 //@   check panic {C03}
 //@   check frame {C11}
 //@   requires f != nil
-//@   requires f.ConType != nil ==> ptrval(f.ConType) != 0
+//@   requires ct != nil ==> ptrval(ct) != 0
 //@   ensures[errs-fresh]{C06} errsFresh(errors)
 //@   ensures[no-resolver]{C10} #res == old(#res)
-//@   ensures[undeclared-arg-object]{C10} is(old(f.ConType), *Object) ==> (forall i int :: 0 <= i && i < old(len(f.Args)) && old(fdOf(f.ConType, f.Name) != nil && !argDeclared(f.ConType, f.Name, f.Args[i].Arg)) ==> len(errors) > 0)
-//@   ensures[undeclared-arg-interface]{C10} is(old(f.ConType), *Interface) ==> (forall i int :: 0 <= i && i < old(len(f.Args)) && old(fdOf(f.ConType, f.Name) != nil && !argDeclared(f.ConType, f.Name, f.Args[i].Arg)) ==> len(errors) > 0)
-//@   ensures[undeclared-arg-schema]{C10} (is(old(f.ConType), *Schema) || is(old(f.ConType), *uuSchema)) ==> (forall i int :: 0 <= i && i < old(len(f.Args)) && old(fdOf(f.ConType, f.Name) != nil && !argDeclared(f.ConType, f.Name, f.Args[i].Arg)) ==> len(errors) > 0)
+//@   ensures[undeclared-arg-object]{C10} is(ct, *Object) ==> (forall i int :: 0 <= i && i < old(len(f.Args)) && old(fdOf(ct, f.Name) != nil && !argDeclared(ct, f.Name, f.Args[i].Arg)) ==> len(errors) > 0)
+//@   ensures[undeclared-arg-interface]{C10} is(ct, *Interface) ==> (forall i int :: 0 <= i && i < old(len(f.Args)) && old(fdOf(ct, f.Name) != nil && !argDeclared(ct, f.Name, f.Args[i].Arg)) ==> len(errors) > 0)
+//@   ensures[undeclared-arg-schema]{C10} (is(ct, *Schema) || is(ct, *uuSchema)) ==> (forall i int :: 0 <= i && i < old(len(f.Args)) && old(fdOf(ct, f.Name) != nil && !argDeclared(ct, f.Name, f.Args[i].Arg)) ==> len(errors) > 0)
 //@   ensures[args-kept]{C11,C03} f.Args == old(f.Args)
+//@   ensures[nothing-to-check]{C10,C01} !is(ct, *Object) || as(ct, *Object) == nil || old(fdOf(ct, f.Name)) == nil || old(len(f.Args)) == 0 ==> len(errors) == 0
+//@   ensures[all-declared-accepted]{C10} is(ct, *Object) && old(fdOf(ct, f.Name)) != nil && (forall i int {f.Args[i]} :: 0 <= i && i < old(len(f.Args)) ==> old(argDeclared(ct, f.Name, f.Args[i].Arg))) ==> len(errors) == 0
 //@   assigns fresh
 //@   loop 0: invariant[bounds] rangeindex+1 <= len(f.Args)
 //@           invariant[errs] errsFresh(errors)
-//@           invariant[found]{C10} forall i int :: 0 <= i && i <= rangeindex && !argDeclared(f.ConType, f.Name, f.Args[i].Arg) ==> len(errors) > 0
+//@           invariant[none-yet]{C10} (forall i int {f.Args[i]} :: 0 <= i && i <= rangeindex ==> argDeclared(ct, f.Name, f.Args[i].Arg)) ==> len(errors) == 0
+//@           invariant[found]{C10} forall i int :: 0 <= i && i <= rangeindex && !argDeclared(ct, f.Name, f.Args[i].Arg) ==> len(errors) > 0
 //@           decreases len(f.Args) - rangeindex
 
 //@ interface InCoercer.CoerceIn
@@ -1029,9 +1032,10 @@ package ggql
 //@   ensures[key-path]{C06} depth < MaxResolveDepth ==> keyPaths(ea, fkey(field))
 //@   ensures[key-set]{C07} len(ea) == 0 ==> has(result, fkey(field))
 //@   ensures[key-frame]{C01} forall k string :: k != fkey(field) ==> (has(result, k) <==> old(has(result, k))) && result[k] == old(result[k])
-//@   ensures[typename]{C01} old(field.ConType) != nil && field.Name == "__typename" ==> has(result, fkey(field)) && result[fkey(field)] == box(t.Name()) && len(ea) == 0 && #res == old(#res)
+//@   ensures[typename]{C01} old(field.ConType) != nil && field.Name == "__typename" && old(fdOf(t, field.Name)) == nil ==> has(result, fkey(field)) && result[fkey(field)] == box(t.Name()) && len(ea) == 0 && #res == old(#res)
 //@   ensures[declared-leaf-type]{C05} depth > 0 && old(field.ConType) != nil && !isMetaName(field.Name) && old(fdOf(t, field.Name)) != nil && isLeafT(old(fdOf(t, field.Name).Type)) && len(ea) == 0 && has(result, fkey(field)) && result[fkey(field)] != nil ==> conformsOut(result[fkey(field)], old(fdOf(t, field.Name).Type))
 //@   ensures[required-arg-missing-no-call]{C04,C02} old(field.ConType) != nil && !isMetaName(field.Name) && old(fdOf(t, field.Name)) != nil && (is(obj, Resolver) || root.AnyResolver != nil) && (exists k string :: old(nonNullArg(fdOf(t, field.Name), k)) && !old(suppliedUpTo(field.Args, k, len(field.Args)))) ==> len(ea) > 0 && #res == old(#res)
+//@   ensures[undeclared-argument]{C10} is(t, *Object) && old(fdOf(t, field.Name)) != nil && (exists i int {field.Args[i]} :: 0 <= i && i < old(len(field.Args)) && !old(argDeclared(t, field.Name, field.Args[i].Arg))) ==> len(ea) > 0 && #res == old(#res)
 //@   ensures[undefined-field]{C10} old(field.ConType) != nil && !isMetaName(field.Name) && old(fdOf(t, field.Name)) == nil ==> len(ea) > 0 && #res == old(#res) && (has(result, fkey(field)) <==> old(has(result, fkey(field)))) && result[fkey(field)] == old(result[fkey(field)])
 //@   assigns fresh, result, H_Field.ConType, H_Object.meta, H_FieldDef.goField, H_FieldDef.method, H_FieldDef.args, held, #res
 //@   ensures[locks-balanced]{C12,C20} held == old(held)
